@@ -867,6 +867,8 @@ def r3(ctx: Ctx) -> None:
              "a closure passed to with_s3_retry; permanent errors re-raise before any sleep; attempts are bounded", 12)
     for ci in [c2 for cname in ("S3StorageBackend", "S3RangeFile") for c2 in family(ctx, ctx.prog.cls(f"{SB}.{cname}"))]:
         for m in ci.methods.values():
+            if ctx.prog.is_transparent(m) and ctx.eff.call_sites.get(m.qname):
+                continue  # a helper analysed in place: its request is judged in every scope that calls it
             fns = [m] + list(m.nested.values())
             for f in fns:
                 for n in ctx.cfg(f).calls():
